@@ -576,7 +576,7 @@ package mocker
 //@ func (m *CachedMethodMocker) Method
 //@   props C02 C12
 //@   safety off
-//@   requires receiver: m != nil && m.MethodMocker != nil && m.mCache != nil
+//@   requires receiver: m != nil && m.MethodMocker != nil && m.mCache != nil && m.MethodMocker.structDef != nil
 //@   assigns everything
 //@   ensures reused_or_owns_fresh_state: (old(has(m.mCache, name)) && iface_of(old(m.mCache[name])) == result)
 //@     | || (typeof(result) == typeid(*MethodMocker) && unbox(result, *MethodMocker) != nil && fresh(unbox(result, *MethodMocker).baseMocker))
